@@ -507,7 +507,11 @@ pub(crate) fn ifndef_directive(s: Span) -> IResult<Span, IfndefDirective> {
 #[packrat_parser]
 pub(crate) fn ifdef_group_of_lines(s: Span) -> IResult<Span, IfdefGroupOfLines> {
     let (s, a) = many0(preceded(
-        peek(not(alt((tag("`elsif"), tag("`else"), tag("`endif"))))),
+        peek(not(alt((
+            directive_word("`elsif"),
+            directive_word("`else"),
+            directive_word("`endif"),
+        )))),
         source_description,
     ))(s)?;
     Ok((s, IfdefGroupOfLines { nodes: (a,) }))
@@ -517,7 +521,11 @@ pub(crate) fn ifdef_group_of_lines(s: Span) -> IResult<Span, IfdefGroupOfLines> 
 #[packrat_parser]
 pub(crate) fn ifndef_group_of_lines(s: Span) -> IResult<Span, IfndefGroupOfLines> {
     let (s, a) = many0(preceded(
-        peek(not(alt((tag("`elsif"), tag("`else"), tag("`endif"))))),
+        peek(not(alt((
+            directive_word("`elsif"),
+            directive_word("`else"),
+            directive_word("`endif"),
+        )))),
         source_description,
     ))(s)?;
     Ok((s, IfndefGroupOfLines { nodes: (a,) }))
@@ -527,7 +535,11 @@ pub(crate) fn ifndef_group_of_lines(s: Span) -> IResult<Span, IfndefGroupOfLines
 #[packrat_parser]
 pub(crate) fn elsif_group_of_lines(s: Span) -> IResult<Span, ElsifGroupOfLines> {
     let (s, a) = many0(preceded(
-        peek(not(alt((tag("`elsif"), tag("`else"), tag("`endif"))))),
+        peek(not(alt((
+            directive_word("`elsif"),
+            directive_word("`else"),
+            directive_word("`endif"),
+        )))),
         source_description,
     ))(s)?;
     Ok((s, ElsifGroupOfLines { nodes: (a,) }))
@@ -536,8 +548,24 @@ pub(crate) fn elsif_group_of_lines(s: Span) -> IResult<Span, ElsifGroupOfLines> 
 #[tracable_parser]
 #[packrat_parser]
 pub(crate) fn else_group_of_lines(s: Span) -> IResult<Span, ElseGroupOfLines> {
-    let (s, a) = many0(preceded(peek(not(tag("`endif"))), source_description))(s)?;
+    let (s, a) = many0(preceded(
+        peek(not(directive_word("`endif"))),
+        source_description,
+    ))(s)?;
     Ok((s, ElseGroupOfLines { nodes: (a,) }))
+}
+
+// A directive name used as look-ahead must end at a word boundary, otherwise
+// a macro such as `endif_x inside a branch would terminate the branch.
+pub(crate) fn directive_word<'a>(
+    t: &'a str,
+) -> impl FnMut(Span<'a>) -> IResult<Span<'a>, Span<'a>> {
+    move |s: Span<'a>| {
+        alt((
+            all_consuming(tag(t)),
+            terminated(tag(t), peek(none_of(AZ09_DOLLAR))),
+        ))(s)
+    }
 }
 
 #[tracable_parser]
